@@ -727,7 +727,7 @@ func (s *scope) createInstance(descriptor *Descriptor) (any, error) {
 
 			// An output whose registration was removed before Build is not stored, but it stays owned
 			if regDescriptor != nil && regDescriptor != descriptor && !s.rootProvider.isRegistered(regDescriptor) {
-				s.trackOnly(regDescriptor.Lifetime, value)
+				stored = s.trackOutput(regDescriptor.Lifetime, value, stored)
 				continue
 			}
 
@@ -788,7 +788,7 @@ func (s *scope) createInstance(descriptor *Descriptor) (any, error) {
 
 			// An output whose registration was removed before Build is not stored, but it stays owned
 			if serviceDescriptor != nil && serviceDescriptor != descriptor && !s.rootProvider.isRegistered(serviceDescriptor) {
-				s.trackOnly(serviceDescriptor.Lifetime, value)
+				stored = s.trackOutput(serviceDescriptor.Lifetime, value, stored)
 				continue
 			}
 
@@ -897,8 +897,9 @@ func (s *scope) producedFor(descriptor *Descriptor, registrations []reflection.S
 
 // trackUnstored makes the owner of the given lifetime dispose the values of a result object none of which is stored.
 func (s *scope) trackUnstored(lifetime Lifetime, registrations []reflection.ServiceRegistration) {
+	var tracked []any
 	for _, reg := range registrations {
-		s.trackOnly(lifetime, reg.Value)
+		tracked = s.trackOutput(lifetime, reg.Value, tracked)
 	}
 }
 
